@@ -479,8 +479,8 @@ func enumC12Tall(tier string, shard, nshards int, yield func(C12Case) bool) (boo
 	cfg := core.Config{BF: 2, Format: ref.FormatBinary, Key: core.KLK, Val: core.VInt, Cache: "none", Marshaler: "json", LKLayers: layers, Big: 700}
 	base := []core.Op{{Kind: core.OpBulkIns, K: 0, V: 0, N: 700}}
 	i := 0
-	for _, op := range []string{"forward", "backward", "ceil", "max", "get", "delete", "insert", "seekiter"} {
-		for _, k := range []int{1, 2, 255, 385, 697} {
+	for _, op := range []string{"forward", "backward", "ceil", "max", "delete", "insert"} {
+		for _, k := range []int{1, 255, 385, 697} {
 			i++
 			if i%nshards != shard {
 				continue
